@@ -36,6 +36,14 @@ pub struct T1Profile {
     pub max_steps: u64,
     pub many_clones: bool,
     pub id_exhaustion: bool,
+    /// the client takes and reads every push promise
+    pub push_adopt_all: bool,
+    /// quiescence with unfinished tasks is a violation (off where the application itself may
+    /// legitimately hold resources forever, e.g. pushed streams it never takes)
+    pub progress_oracle: bool,
+    /// hold the last request handle until the run is quiescent with every stream finished,
+    /// check the idle state (C19), then let the client close
+    pub idle_check: bool,
 }
 
 impl T1Profile {
@@ -50,7 +58,7 @@ impl T1Profile {
                 aborts: false,
                 trailers: true,
                 informational: true,
-                pushes: true,
+                pushes: false,
                 reserve: true,
                 stop_reading: false,
                 never_release: false,
@@ -72,6 +80,9 @@ impl T1Profile {
             max_steps: 400_000,
             many_clones: false,
             id_exhaustion: false,
+            push_adopt_all: false,
+            progress_oracle: true,
+            idle_check: true,
         }
     }
 }
@@ -205,9 +216,49 @@ pub fn draw_plan(t: &Tape, p: &T1Profile) -> T1Plan {
     for i in 0..n {
         cprogs.push(gen_client_prog(t, i, &cws, scfg.iws(), scfg.mfs()));
     }
+    if p.push_adopt_all {
+        for c in cprogs.iter_mut() {
+            c.take_pushes = true;
+            c.drop_response_future = false;
+        }
+    }
     let mut sprogs = Vec::new();
     for _ in 0..n {
         sprogs.push(gen_server_prog(t, &sws, ccfg.iws(), ccfg.mfs()));
+    }
+    if p.cooperative {
+        // Legal-traffic profiles stay inside the receiver's configured defences: the
+        // tiny-DATA budget is configured off and fewer than MAX_RECV_EMPTY_DATA_FRAMES (100)
+        // empty non-final DATA frames are sent per direction over the connection's life.
+        // (Crossing a configured quota is a configured GOAWAY, not a penalty; C18 covers it.)
+        ccfg.data_frame_budget = Some(usize::MAX / 4);
+        scfg.data_frame_budget = Some(usize::MAX / 4);
+        let mut left = 80usize;
+        for c in cprogs.iter_mut() {
+            for ch in c.body.chunks.iter_mut() {
+                if ch.len == 0 {
+                    if left == 0 {
+                        ch.len = 1;
+                    } else {
+                        left -= 1;
+                    }
+                }
+            }
+        }
+        let mut left = 80usize;
+        for c in sprogs.iter_mut() {
+            for b in std::iter::once(&mut c.body).chain(c.pushes.iter_mut().map(|p| &mut p.body)) {
+                for ch in b.chunks.iter_mut() {
+                    if ch.len == 0 {
+                        if left == 0 {
+                            ch.len = 1;
+                        } else {
+                            left -= 1;
+                        }
+                    }
+                }
+            }
+        }
     }
     // keep tiny transport buffers for small workloads only: the number of scheduler steps
     // grows with bytes / buffer size
@@ -282,6 +333,7 @@ pub struct Shared {
     pub conn_task_waker: [Option<std::task::Waker>; 2],
     pub conn_done: [bool; 2],
     pub accepted: u32,
+    pub idle_gate: Option<crate::exec::Gate>,
 }
 
 pub type SharedRef = Arc<Mutex<Shared>>;
@@ -295,27 +347,31 @@ fn record_conn_result(ctx: &Ctx, side: usize, r: Result<(), h2::Error>) {
     ctx.hist.log(side as u8, 0, || format!("connection finished: {:?}", r.as_ref().map_err(|e| e.to_string())));
 }
 
-fn apply_ctl_client(conn: &mut h2::client::Connection<crate::net::SimIo, Bytes>, c: &Ctl, ctx: &Ctx) -> bool {
+/// Returns (drop the connection now, retry this command later).
+fn apply_ctl_client(conn: &mut h2::client::Connection<crate::net::SimIo, Bytes>, c: &Ctl, ctx: &Ctx) -> (bool, bool) {
     match c {
         Ctl::SetTarget(v) => conn.set_target_window_size(*v),
         Ctl::SetIws(v) => {
             if let Err(e) = conn.set_initial_window_size(*v) {
                 ctx.hist.log(0, 0, || format!("set_initial_window_size({}) -> Err({})", v, e));
+                // the previous SETTINGS is still unacknowledged: a cooperative application retries
+                return (false, true);
             }
         }
-        Ctl::DropConn => return true,
+        Ctl::DropConn => return (true, false),
         _ => {}
     }
     ctx.hist.log(0, 0, || format!("ctl {:?}", c));
-    false
+    (false, false)
 }
 
-fn apply_ctl_server(conn: &mut h2::server::Connection<crate::net::SimIo, Bytes>, c: &Ctl, ctx: &Ctx) -> bool {
+fn apply_ctl_server(conn: &mut h2::server::Connection<crate::net::SimIo, Bytes>, c: &Ctl, ctx: &Ctx) -> (bool, bool) {
     match c {
         Ctl::SetTarget(v) => conn.set_target_window_size(*v),
         Ctl::SetIws(v) => {
             if let Err(e) = conn.set_initial_window_size(*v) {
                 ctx.hist.log(1, 0, || format!("set_initial_window_size({}) -> Err({})", v, e));
+                return (false, true);
             }
         }
         Ctl::EnableConnect => {
@@ -323,10 +379,10 @@ fn apply_ctl_server(conn: &mut h2::server::Connection<crate::net::SimIo, Bytes>,
         }
         Ctl::Graceful => conn.graceful_shutdown(),
         Ctl::Abrupt(code) => conn.abrupt_shutdown(h2::Reason::from(*code)),
-        Ctl::DropConn => return true,
+        Ctl::DropConn => return (true, false),
     }
     ctx.hist.log(1, 0, || format!("ctl {:?}", c));
-    false
+    (false, false)
 }
 
 pub async fn client_main(ctx: Ctx, io: crate::net::SimIo, plan: Arc<T1Plan>, ctl: CtlQ, shared: SharedRef) {
@@ -357,23 +413,50 @@ pub async fn client_main(ctx: Ctx, io: crate::net::SimIo, plan: Arc<T1Plan>, ctl
     }
     // the main handle is dropped by a separate task after a delay
     let hold = plan.hold_main_sr;
+    let gate = shared.lock().unwrap().idle_gate.clone();
+    let st = ctx.status.clone();
     ctx.spawner.spawn("c:main-handle", async move {
         for _ in 0..hold {
             yield_now().await;
+        }
+        if let Some(g) = gate {
+            st.set("c:main-handle", "idle-gate");
+            g.wait().await;
         }
         drop(sr);
     });
     ctx.status.set("c:conn", "poll");
     let c2 = ctx.clone();
     let sh2 = shared.clone();
+    let mut retry: Vec<Ctl> = Vec::new();
     let r = poll_fn(move |cx| {
-        for c in ctl.register_and_drain(cx.waker()) {
-            if apply_ctl_client(&mut conn, &c, &c2) {
+        let mut cmds = std::mem::take(&mut retry);
+        cmds.extend(ctl.register_and_drain(cx.waker()));
+        for c in cmds {
+            if !retry.is_empty() {
+                // keep the application's order of settings changes
+                retry.push(c);
+                continue;
+            }
+            let (dropit, again) = apply_ctl_client(&mut conn, &c, &c2);
+            if dropit {
                 return Poll::Ready(None);
+            }
+            if again {
+                retry.push(c);
             }
         }
         let r = Pin::new(&mut conn).poll(cx);
         sh2.lock().unwrap().codec[0] = conn.verif_codec_stats();
+        if r.is_pending() && !retry.is_empty() {
+            // the poll may have processed the SETTINGS ACK the retry was waiting for
+            let c = retry[0].clone();
+            let (_, again) = apply_ctl_client(&mut conn, &c, &c2);
+            if !again {
+                retry.remove(0);
+                cx.waker().wake_by_ref();
+            }
+        }
         r.map(Some)
     })
     .await;
@@ -413,10 +496,22 @@ pub async fn server_main(ctx: Ctx, io: crate::net::SimIo, plan: Arc<T1Plan>, ctl
     let mut delay_left = 0u32;
     let accept_delay = plan.accept_delay;
     let plan2 = plan.clone();
+    let mut retry: Vec<Ctl> = Vec::new();
     let r: Option<Result<(), h2::Error>> = poll_fn(move |cx| {
-        for c in ctl.register_and_drain(cx.waker()) {
-            if apply_ctl_server(&mut conn, &c, &c2) {
+        let mut cmds = std::mem::take(&mut retry);
+        cmds.extend(ctl.register_and_drain(cx.waker()));
+        for c in cmds {
+            if !retry.is_empty() {
+                // keep the application's order of settings changes
+                retry.push(c);
+                continue;
+            }
+            let (dropit, again) = apply_ctl_server(&mut conn, &c, &c2);
+            if dropit {
                 return Poll::Ready(None);
+            }
+            if again {
+                retry.push(c);
             }
         }
         loop {
@@ -435,6 +530,14 @@ pub async fn server_main(ctx: Ctx, io: crate::net::SimIo, plan: Arc<T1Plan>, ctl
             }
             let r = conn.poll_accept(cx);
             sh2.lock().unwrap().codec[1] = conn.verif_codec_stats();
+            if r.is_pending() && !retry.is_empty() {
+                let c = retry[0].clone();
+                let (_, again) = apply_ctl_server(&mut conn, &c, &c2);
+                if !again {
+                    retry.remove(0);
+                    cx.waker().wake_by_ref();
+                }
+            }
             match r {
                 Poll::Ready(Some(Ok((req, respond)))) => {
                     c2.tick();
@@ -542,12 +645,23 @@ pub fn run_t1(profile: &T1Profile, tape: Tape, opts: &T1Opts) -> RunOut {
     h2::verif::reset_thread_state();
     h2::verif::enable_events(true);
     let plan = Arc::new(draw_plan(&tape, profile));
-    let net = Net::new(plan.net_caps[0], plan.net_caps[1]);
+    // The two prefaces (24-byte magic + SETTINGS each way) are written before either side
+    // reads; a transport that cannot hold them deadlocks any HTTP/2 implementation, so the
+    // drawn (possibly tiny) buffer sizes take effect once both handshakes are done.
+    let hs_floor = |c: (usize, usize)| (c.0.max(128), c.1.max(128));
+    let net = Net::new(hs_floor(plan.net_caps[0]), hs_floor(plan.net_caps[1]));
+    let mut caps_applied = false;
     let mut exec = Exec::new(tape.clone(), Some(net.clone()), plan.exec.clone());
     let hist = Hist::new(opts.keep_log || opts.want_sample);
     let ctx = Ctx { hist: hist.clone(), spawner: exec.spawner.clone(), status: exec.status.clone(), progress: exec.api_progress.clone(), coop: profile.cooperative };
     let shared: SharedRef = Arc::new(Mutex::new(Shared::default()));
     let ctls = [CtlQ::default(), CtlQ::default()];
+    let idle_gate = crate::exec::Gate::new();
+    if profile.idle_check {
+        shared.lock().unwrap().idle_gate = Some(idle_gate.clone());
+    }
+    let mut idle_checked = false;
+    let mut idle_violations: Vec<Violation> = Vec::new();
     let mut fatal_fired = false;
     if let FatalFault::Io(side, f) = &plan.fatal {
         net.add_fault(*side, *f);
@@ -558,15 +672,21 @@ pub fn run_t1(profile: &T1Profile, tape: Tape, opts: &T1Opts) -> RunOut {
         exec.spawn("c:conn", client_main(ctx.clone(), cio, plan.clone(), ctls[0].clone(), shared.clone())),
         exec.spawn("s:conn", server_main(ctx.clone(), sio, plan.clone(), ctls[1].clone(), shared.clone())),
     ];
-    for (i, a) in plan.actions.iter().enumerate() {
-        let a = a.clone();
-        let q = ctls[a.side].clone();
-        let nm = format!("{}:ctl{}", if a.side == 0 { "c" } else { "s" }, i);
+    for side in 0..2 {
+        // one control actor per side performs that side's actions in list order
+        let acts: Vec<CtlAction> = plan.actions.iter().filter(|a| a.side == side).cloned().collect();
+        if acts.is_empty() {
+            continue;
+        }
+        let q = ctls[side].clone();
+        let nm = format!("{}:ctl", if side == 0 { "c" } else { "s" });
         exec.spawn(nm, async move {
-            for _ in 0..a.after_yields {
-                yield_now().await;
+            for a in acts {
+                for _ in 0..a.after_yields {
+                    yield_now().await;
+                }
+                q.send(a.ctl.clone());
             }
-            q.send(a.ctl.clone());
         });
     }
     let mut mon = Monitor::new([true, true]);
@@ -581,6 +701,7 @@ pub fn run_t1(profile: &T1Profile, tape: Tape, opts: &T1Opts) -> RunOut {
     let mut evbuf: Vec<h2::verif::Ev> = Vec::new();
     let mut states: std::collections::BTreeSet<u64> = Default::default();
     let mut problems: Vec<String> = Vec::new();
+    let mut resets_seen = 0usize;
 
     let outcome = loop {
         // scheduled fatal faults keyed by step
@@ -601,9 +722,28 @@ pub fn run_t1(profile: &T1Profile, tape: Tape, opts: &T1Opts) -> RunOut {
             }
             _ => {}
         }
+        if !caps_applied {
+            let sh = shared.lock().unwrap();
+            if sh.stats[0].is_some() && sh.stats[1].is_some() {
+                caps_applied = true;
+                net.set_caps(0, plan.net_caps[0].0, plan.net_caps[0].1);
+                net.set_caps(1, plan.net_caps[1].0, plan.net_caps[1].1);
+            }
+        }
         let o = exec.step_once();
         let ent = match o {
             StepOutcome::Ran(e) => e,
+            StepOutcome::Quiescent if profile.idle_check && !idle_gate.is_open() => {
+                // phase gate: everything the programs wanted to do is done (or parked)
+                let unfinished = exec.unfinished();
+                let only_expected = unfinished.iter().all(|(n, _)| n == "c:conn" || n == "s:conn" || n == "c:main-handle");
+                if only_expected && unfinished.iter().any(|(n, _)| n == "c:main-handle") {
+                    idle_checked = true;
+                    check_idle_state(profile, &plan, &shared, &mon, &hist, &mut idle_violations, exec.step);
+                }
+                idle_gate.open();
+                continue;
+            }
             other => break other,
         };
         hist.with(|h| h.step = exec.step);
@@ -613,7 +753,7 @@ pub fn run_t1(profile: &T1Profile, tape: Tape, opts: &T1Opts) -> RunOut {
             h2::verif::take_events(&mut evbuf);
             if !evbuf.is_empty() {
                 if let Some(side) = side_of(&exec.tasks[id].name) {
-                    mon.push_events(side, &evbuf);
+                    mon.push_events(side, &evbuf, exec.step);
                 }
             }
             let pr = h2::verif::take_problems();
@@ -621,6 +761,14 @@ pub fn run_t1(profile: &T1Profile, tape: Tape, opts: &T1Opts) -> RunOut {
                 problems.extend(pr);
             }
         }
+        // forward application resets / handle drops to the monitor
+        hist.with(|h| {
+            while resets_seen < h.resets.len() {
+                let r = &h.resets[resets_seen];
+                mon.note_app_reset(r.side as usize, r.sid, r.step);
+                resets_seen += 1;
+            }
+        });
         {
             let n = net.lock();
             mon.feed_taps(&n.dirs[0].tap, &n.dirs[1].tap);
@@ -660,8 +808,14 @@ pub fn run_t1(profile: &T1Profile, tape: Tape, opts: &T1Opts) -> RunOut {
         _ => {}
     }
     let unfinished = exec.unfinished();
-    if matches!(outcome, StepOutcome::Quiescent) && !unfinished.is_empty() {
-        let mut kinds: Vec<String> = unfinished.iter().map(|(n, s)| format!("{}@{}", n.split(':').last().unwrap_or(""), s)).map(|k| k.trim_start_matches(char::is_numeric).to_string()).collect();
+    // Both writers blocked by transport back-pressure: the transport is not "accepting
+    // bytes", which is outside the precondition of the progress properties.
+    let mutual_block = net.writer_blocked(0) && net.writer_blocked(1);
+    if mutual_block {
+        hist.probe("quiescent_with_both_writers_blocked");
+    }
+    if matches!(outcome, StepOutcome::Quiescent) && !unfinished.is_empty() && !mutual_block && profile.progress_oracle {
+        let mut kinds: Vec<String> = unfinished.iter().map(|(_, s)| s.clone()).collect();
         kinds.sort();
         kinds.dedup();
         let prop = if fatal_cfg || profile.shutdowns { "C07" } else { "C06" };
@@ -705,21 +859,40 @@ pub fn run_t1(profile: &T1Profile, tape: Tape, opts: &T1Opts) -> RunOut {
             }
             s
         };
+        let net_txt = {
+            let n = net.lock();
+            let sh = shared.lock().unwrap();
+            format!(
+                " [net c>s inflight={}/{} rbuf={}/{} wblocked={} rwait={}; s>c inflight={}/{} rbuf={}/{} wblocked={} rwait={}] [codec client {:?}] [codec server {:?}]",
+                n.dirs[0].inflight.len(), n.dirs[0].inflight_cap, n.dirs[0].rbuf.len(), n.dirs[0].rbuf_cap, n.dirs[0].writer_waker.is_some(), n.dirs[0].reader_waker.is_some(),
+                n.dirs[1].inflight.len(), n.dirs[1].inflight_cap, n.dirs[1].rbuf.len(), n.dirs[1].rbuf_cap, n.dirs[1].writer_waker.is_some(), n.dirs[1].reader_waker.is_some(),
+                sh.codec[0], sh.codec[1]
+            )
+        };
         violations.push(Violation::new(
             prop,
             "parked-at-quiescence",
             kinds.join("+"),
-            format!("quiescent with unfinished tasks {:?};{}", unfinished, stats_txt),
+            format!("quiescent with unfinished tasks {:?};{}{}", unfinished, stats_txt, net_txt),
             step,
         ));
     }
     let quiescent = matches!(outcome, StepOutcome::Quiescent);
-    mon.finish([quiescent && !fatal_cfg, quiescent && !fatal_cfg]);
+    // acknowledgements can only be owed by an endpoint whose connection is still running
+    let running = {
+        let sh = shared.lock().unwrap();
+        [!sh.conn_done[0], !sh.conn_done[1]]
+    };
+    mon.finish([quiescent && !fatal_cfg && running[0], quiescent && !fatal_cfg && running[1]]);
     violations.extend(mon.violations.drain(..));
     let hv = hist.with(|h| std::mem::take(&mut h.violations));
     violations.extend(hv);
+    violations.extend(idle_violations);
+    if idle_checked {
+        hist.probe("idle_state_checked");
+    }
     let clean = !fatal_cfg && !profile.shutdowns && quiescent;
-    let conn_ok = hist.with(|h| h.conn_results.iter().all(|r| matches!(r, Some(Ok(())))));
+    let conn_ok = hist.with(|h| h.conn_results.iter().all(|r| matches!(r, Some(Ok(())))) && h.errors.is_empty());
     if clean && profile.cooperative {
         // two correct endpoints exchanging legal traffic: neither may fail the connection
         let res = hist.with(|h| h.conn_results.clone());
@@ -727,16 +900,51 @@ pub fn run_t1(profile: &T1Profile, tape: Tape, opts: &T1Opts) -> RunOut {
             if let Some(Err(e)) = r {
                 // the side that *detected* the error is the one penalising legal traffic
                 if e.is_library || e.is_io {
+                    // what was the endpoint looking at when it gave up?
+                    let cause = {
+                        let m = &mon.ep[side];
+                        let idx = m.goaway_out.iter().find(|g| g.1 != 0).map(|g| g.2).unwrap_or(m.in_idx);
+                        if idx == 0 {
+                            "none".to_string()
+                        } else {
+                            let f = &mon.frames[1 - side][idx - 1];
+                            let cfg = if side == 0 { &plan.ccfg } else { &plan.scfg };
+                            let no_memory = cfg.max_concurrent_reset_streams == Some(0) || cfg.reset_stream_duration == Some(std::time::Duration::ZERO);
+                            let app_reset = m.app_resets.contains_key(&f.sid);
+                            let st = match m.streams.get(&f.sid) {
+                                None => "unknown-stream",
+                                Some(s) if s.rst_out_code == Some(crate::wire::REFUSED_STREAM) => "stream-it-refused",
+                                Some(s) if (s.rst_out > 0 || app_reset) && no_memory => "stream-it-reset-and-forgot-by-configuration",
+                                Some(s) if s.rst_out > 0 || app_reset => "stream-it-reset",
+                                Some(s) if s.closed() => "closed-stream",
+                                Some(s) if s.reserved => "reserved-stream",
+                                Some(_) => "live-stream",
+                            };
+                            format!("{}-on-{}", crate::wire::type_name(f.ty), st)
+                        }
+                    };
+                    // RFC 9113 5.1 lets an endpoint bound how long it ignores frames on a
+                    // stream it reset and treat later ones as an error of its choosing. h2
+                    // never remembers a refused stream and remembers reset streams only as
+                    // configured; its own suite pins GOAWAY(PROTOCOL_ERROR) for HEADERS on
+                    // a forgotten stream. Not judged (DESIGN.md Appendix A, "forgotten").
+                    if cause == "HEADERS-on-stream-it-refused" || cause == "HEADERS-on-stream-it-reset-and-forgot-by-configuration" {
+                        hist.probe("headers_on_forgotten_stream_conn_error_tolerated");
+                        continue;
+                    }
                     violations.push(Violation::new(
                         "C09",
                         "connection-error-on-legal-traffic",
-                        format!("{}:{:?}", if side == 0 { "client" } else { "server" }, e.reason),
+                        format!("{}:{:?}:{}", if side == 0 { "client" } else { "server" }, e.reason, cause),
                         format!("{} failed a connection that carried only legal traffic: {}", if side == 0 { "client" } else { "server" }, e.display),
                         step,
                     ));
                 }
             }
         }
+    }
+    if clean && profile.cooperative {
+        check_legal_resets(&hist, &mon, &mut violations, step);
     }
     let streams_done = check_fidelity(&hist, &mon, clean && profile.cooperative && conn_ok, &mut violations, step);
 
@@ -802,6 +1010,108 @@ pub fn run_t1(profile: &T1Profile, tape: Tape, opts: &T1Opts) -> RunOut {
         sample,
         tape: tape.recorded(),
         trace_tail,
+    }
+}
+
+/// C19: the run is quiescent, every stream has finished and every stream handle is gone;
+/// only the two connections and one request handle are alive.
+fn check_idle_state(profile: &T1Profile, plan: &T1Plan, shared: &SharedRef, mon: &Monitor, hist: &Hist, out: &mut Vec<Violation>, step: u64) {
+    let _ = (profile, hist);
+    let sh = shared.lock().unwrap();
+    for side in 0..2 {
+        let who = if side == 0 { "client" } else { "server" };
+        if sh.conn_done[side] {
+            continue;
+        }
+        let cfg = if side == 0 { &plan.ccfg } else { &plan.scfg };
+        let st = match &sh.stats[side] {
+            Some(s) => s.snapshot(),
+            None => continue,
+        };
+        let max_remembered = cfg.max_concurrent_reset_streams.unwrap_or(50);
+        let mut remembered = 0;
+        for x in &st.streams {
+            if x.is_pending_reset_expiry && x.state == 6 && x.ref_count == 0 {
+                remembered += 1;
+                continue;
+            }
+            // Notes can still be waiting behind an unwritten frame in the monitor's queue.
+            let evicted = mon.notes[side].contains(&("evict-from-pending-capacity", x.id))
+                || mon.ep[side].events.iter().any(|(e, _)| matches!(e, h2::verif::Ev::Note { site: "evict-from-pending-capacity", id } if *id == x.id));
+            out.push(Violation::new(
+                "C19",
+                "stream-retained-when-idle",
+                format!("{}:{}:st{}:refs{}:{}{}{}{}{}{}", if evicted { "evicted-dead-from-capacity-queue" } else { "other" }, who, x.state, x.ref_count.min(2),
+                    if x.is_pending_send { "S" } else { "" }, if x.is_pending_send_capacity { "C" } else { "" }, if x.is_pending_open { "O" } else { "" },
+                    if x.is_pending_push { "P" } else { "" }, if x.is_pending_accept { "A" } else { "" }, if x.is_pending_window_update { "W" } else { "" }),
+                format!("{} still holds a record for stream {} although it is finished and all its handles are dropped: {:?}", who, x.id, x),
+                step,
+            ));
+        }
+        if remembered > max_remembered {
+            out.push(Violation::new("C19", "too-many-remembered-resets", who, format!("{} remembers {} reset streams, configured maximum {}", who, remembered, max_remembered), step));
+        }
+        if st.recv_buffer_slots != 0 || st.send_buffer_slots != 0 {
+            out.push(Violation::new("C19", "buffers-not-empty-when-idle", who, format!("{}: recv buffer slots {} send buffer slots {} with no stream alive", who, st.recv_buffer_slots, st.send_buffer_slots), step));
+        }
+        if st.num_send_streams != 0 || st.num_recv_streams != 0 {
+            out.push(Violation::new("C19", "concurrency-count-not-idle", who, format!("{}: num_send_streams={} num_recv_streams={} with no stream alive", who, st.num_send_streams, st.num_recv_streams), step));
+        }
+        if st.conn_recv_in_flight != 0 {
+            out.push(Violation::new("C19", "recv-in-flight-not-idle", who, format!("{}: {} bytes of connection receive window still counted as in flight with no stream alive", who, st.conn_recv_in_flight), step));
+        }
+        // flow-control bookkeeping agrees with the wire accountant once nothing is in flight
+        let e = &mon.ep[side];
+        if e.events.is_empty() && st.conn_send_window as i64 != e.conn_send_win {
+            out.push(Violation::new("C19", "conn-send-window-disagrees-with-wire", who, format!("{}: internal connection send window {} but the wire accountant says {}", who, st.conn_send_window, e.conn_send_win), step));
+        }
+        // C03: everything received has been released or discarded, so the window h2 is
+        // prepared to advertise must be back at the configured target.
+        let mut target = cfg.conn_target() as i64;
+        for a in plan.actions.iter().filter(|a| a.side == side) {
+            if let Ctl::SetTarget(v) = a.ctl {
+                target = v as i64;
+            }
+        }
+        if st.conn_recv_available as i64 != target {
+            out.push(Violation::new(
+                "C03",
+                "connection-window-not-restored-when-idle",
+                format!("{}:{}", who, if (st.conn_recv_available as i64) < target { "short" } else { "excess" }),
+                format!("{}: with no stream alive and everything released, connection receive capacity is {} but the configured target is {} (window advertised to the peer {})", who, st.conn_recv_available, target, st.conn_recv_window),
+                step,
+            ));
+        }
+        let expected_refs = if side == 0 { 2 } else { 1 };
+        if st.refs != expected_refs {
+            out.push(Violation::new("C19", "handle-refcount-not-idle", format!("{}:{}", who, st.refs), format!("{}: {} handle references counted, {} alive", who, st.refs, expected_refs), step));
+        }
+    }
+}
+
+/// Legal traffic between two correct endpoints: a library-initiated RST_STREAM must be one
+/// of the refusals/cancellations the protocol and configuration explain.
+fn check_legal_resets(hist: &Hist, mon: &Monitor, out: &mut Vec<Violation>, step: u64) {
+    use crate::wire::{CANCEL, NO_ERROR, REFUSED_STREAM, STREAM_CLOSED};
+    let app: Vec<(u8, u32, u32)> = hist.with(|h| h.resets.iter().map(|r| (r.side, r.sid, r.code)).collect());
+    for side in 0..2 {
+        let e = &mon.ep[side];
+        for (sid, s) in &e.streams {
+            if let Some(code) = s.rst_out_code {
+                let by_app = app.iter().any(|(sd, id, c)| *sd as usize == side && id == sid && *c == code);
+                let advertised_limit = e.own_acked.max_conc.is_some() || e.own_sent.iter().any(|st| st.iter().any(|(k, _)| *k == crate::wire::S_MAX_CONCURRENT_STREAMS));
+                let ok = by_app || code == CANCEL || code == NO_ERROR || code == STREAM_CLOSED || (code == REFUSED_STREAM && advertised_limit);
+                if !ok {
+                    out.push(Violation::new(
+                        "C09",
+                        "stream-reset-on-legal-traffic",
+                        format!("{}:{}", if side == 0 { "client" } else { "server" }, code),
+                        format!("{} reset stream {} with code {} although the peer sent only legal traffic", if side == 0 { "client" } else { "server" }, sid, code),
+                        step,
+                    ));
+                }
+            }
+        }
     }
 }
 
@@ -901,7 +1211,8 @@ pub fn check_fidelity(hist: &Hist, mon: &Monitor, must_complete: bool, out: &mut
                     let peer_dir_abort = s.dirs[1 - di].s_abort.is_some() || s.dirs[1 - di].r_stopped;
                     // a pushed stream has a receiver only if the client took the promise
                     let adopted = sid % 2 == 1 || h.streams.values().any(|p| p.dirs[1].r_push.iter().any(|(pid, _)| pid == sid));
-                    if must_complete && adopted && d.s_end && d.s_abort.is_none() && !d.r_stopped && !peer_dir_abort && d.s_head.is_some() {
+                    let wire_reset = (0..2).any(|sd| mon.ep[sd].streams.get(sid).map(|m| m.rst_out > 0).unwrap_or(false));
+                    if must_complete && adopted && !wire_reset && d.s_end && d.s_abort.is_none() && !d.r_stopped && !peer_dir_abort && d.s_head.is_some() {
                         out.push(Violation::new(
                             "C01",
                             "complete-message-not-delivered",
